@@ -19,6 +19,9 @@ def check(pid):
 
 def setup():
     vlib.build_harness()
+    import props2
+    props2.build_aux()
+    props2.build_aux(features=("fasterhex",), target="target-fh")
     # parse every specification module once
     import glob
     for f in sorted(glob.glob(os.path.join(vlib.SPEC, "mc", "*.tla")) + glob.glob(os.path.join(vlib.SPEC, "trace", "*.tla"))):
